@@ -18,6 +18,7 @@ import RosuModel.Model.FiniteWire
 import RosuModel.Model.PerfCalcWire
 import RosuModel.Model.SliderEventsWire
 import RosuModel.Model.ManiaPatternWire
+import RosuModel.Model.SkillWire
 
 open Rosu
 
@@ -71,6 +72,7 @@ def handle (line : String) : String :=
   | "GSQ" :: mode :: args => GenState.handleGSQ mode args
   | "C09" :: args => Finite.handleFinite args
   | "PP" :: args => PerfCalc.handlePP args
+  | ["MSKILL", rate, cols, take, objs] => SkillWire.handleMSKILL rate cols take objs
   | ["SLEV", st, sd, v, td, tot, sp] => SliderEvents.handleSLEV st sd v td tot sp
   | ["OSLD", v, sm, tr, sl] => SliderEvents.handleOSLD v sm tr sl
   | ["JUICE", v, sm, tr, objs] => SliderEvents.handleJUICE v sm tr objs
